@@ -482,7 +482,9 @@ func (p *twkbParser) nextPolygon() (Polygon, error) {
 		ls := NewLineString(NewSequence(coords, p.ctype))
 		rings = append(rings, ls)
 	}
-	return NewPolygon(rings), nil
+	// A Polygon without rings would otherwise be XY, which would strip Z and M
+	// from the other members of a MultiPolygon containing it.
+	return NewPolygon(rings).ForceCoordinatesType(p.ctype), nil
 }
 
 func (p *twkbParser) parseMultiPoint() (MultiPoint, error) {
@@ -595,6 +597,12 @@ func (p *twkbParser) nextGeometryCollection() (GeometryCollection, error) {
 			return GeometryCollection{}, err
 		}
 		p.pos += nbytes // Sub-parser's geometry has been read, so ensure it is skipped.
+		if g.IsEmpty() {
+			// The header of an empty member doesn't say whether it has Z or M
+			// (so it's parsed as XY). Give it the collection's coordinates type
+			// so that it doesn't strip Z and M from the other members.
+			g = g.ForceCoordinatesType(p.ctype)
+		}
 		geoms = append(geoms, g)
 	}
 	return NewGeometryCollection(geoms), nil
